@@ -296,12 +296,16 @@ def run_case_c11(ops, edit_ops, rng, stats, m, light=False):
                 insts = [p for d in o.definitions for p in D.occurrences(d)]
             else:
                 insts = D.occurrences(o)
+            # the model of these roots: Hier/TraceRoots.v (get_h*_roots; instances are not part of it)
+            mq = [(k, r) for k in KINDS if k != 'inst' for r in (0, 1)]
+            mans = dict(zip(mq, m.ask(['roots h%ss %d INSIDE %d 42 X%d' % (k, n, r, i) for k, r in mq])))
             for k in KINDS:
                 for r in (False, True):
                     impl, _ = hw.impl_enum(w, k, o, r)
                     exp = sorted(set(insts)) if k == 'inst' else D.contents_from(k, insts, r)
                     cmp3(P, 'get_h%s(%s #%d, recursive=%s)' % (k, type(o).__name__, i, r),
-                         'C11|root|%s|%s' % (type(o).__name__, k), impl, None, exp)
+                         'C11|root|%s|%s' % (type(o).__name__, k), impl,
+                         hw.parse_hrefs(mans[(k, int(r))]) if k != 'inst' else None, exp)
                     stats['root:%s' % type(o).__name__] += 1
         hinsts = sample(rng, E.paths, 5 if light else 12)
         qs = [(k, r, t) for t in hinsts for k in KINDS for r in (0, 1)]
@@ -523,7 +527,7 @@ def run_roots(P, w, n, nl, E, rng, stats, m, light=False):
 
     # ---- candidate roots: (token, python object, class, list of start tuples it stands for)
     cands = []
-    for t in sample(rng, E.paths, 3 if light else 6):
+    for t in sample(rng, E.paths, 3 if light else 4):
         cands.append(('H' + hw.tok(t), hw.href_of(w, t), 'HRef-inst', [t]))
     cands.append(('X%d' % n, nl, 'Netlist', [top]))
     for k in ('wire', 'pin', 'cable', 'port'):
@@ -533,7 +537,7 @@ def run_roots(P, w, n, nl, E, rng, stats, m, light=False):
         plain = [(i, o) for i, o in enumerate(w.objs)
                  if isinstance(o, (sdn.ir.Library, sdn.ir.Definition, sdn.ir.Instance, sdn.ir.Port, sdn.ir.Cable,
                                    sdn.ir.InnerPin, sdn.ir.Wire))]
-        for i, o in sample(rng, plain, 6 if light else 12):
+        for i, o in sample(rng, plain, 6 if light else 9):
             if isinstance(o, sdn.ir.Library):
                 occ = sorted(set(p for d in o.definitions for p in D.occurrences(d)))
             else:
@@ -560,7 +564,7 @@ def run_roots(P, w, n, nl, E, rng, stats, m, light=False):
 
     # ---- the questions: every single root, then some collections of 2-4 roots
     groups = [[c] for c in cands]
-    for _ in range(3 if light else 8):
+    for _ in range(3 if light else 6):
         groups.append([rng.choice(cands) for _ in range(rng.randint(2, 4))])
     # names to build patterns from: the references of the whole design
     names = []
@@ -602,7 +606,7 @@ def run_roots(P, w, n, nl, E, rng, stats, m, light=False):
         try:
             refs = list(f(objs, list(pats), **kw)) if pats is not None else list(f(objs, **kw))
         except TypeError as e:   # a name that is not a string: str.join raises (outside the model's domain)
-            stats['roots:impl-raises-TypeError'] += 1
+            stats['rootshape:impl-raises-TypeError'] += 1
             continue
         raw = [hw.tup(w, x) for x in refs]
         kinds = '+'.join(sorted(set(c[2] for c in g))) if len(g) > 1 else g[0][2]
@@ -622,14 +626,45 @@ def run_roots(P, w, n, nl, E, rng, stats, m, light=False):
                 P.add('oracle', 'C12|roots|%s|returns-invalid-reference' % name, roots=[c[0] for c in g])
                 break
         stats['roots:%s/%s' % (name, shape)] += 1
-        stats['roots:patterns=%s' % ('default' if pats is None else 'given')] += 1
+        stats['rootshape:patterns=%s' % ('default' if pats is None else 'given')] += 1
         if pats is not None:
-            stats['roots:pattern-answer-%s' % ('empty' if not raw else 'nonempty')] += 1
+            stats['rootshape:pattern-answer-%s' % ('empty' if not raw else 'nonempty')] += 1
         if len(g) > 1:
-            stats['roots:collection-size:%d' % len(g)] += 1
+            stats['rootshape:collection-size:%d' % len(g)] += 1
             for kd in set(c[2] for c in g):
-                stats['roots:in-collection:%s' % kd] += 1
+                stats['rootshape:in-collection:%s' % kd] += 1
         stats['answer-size'].append(len(raw))
+    # ---- yield ORDER (get_ordered of Hier/TraceRoots.v): one root that is the netlist or a reference to a
+    #      hierarchical instance, default selection (INSIDE): the answer comes from the pattern loop over the
+    #      name map alone - no Python set is iterated - and is compared as a LIST, element by element
+    oroots = [c for c in cands if c[2] in ('HRef-inst', 'Netlist')]
+    oplan = []
+    for c in oroots:
+        for name, f, q, has_sel in FNS:
+            for r in (0, 1):
+                oplan.append((c, name, f, q, r, None))
+                oplan.append((c, name, f, q, r, some_patterns() + (['*'] if rng.random() < 0.5 else [])))
+    oplan = sample(rng, oplan, 12 if light else 28)
+    ans = m.ask(['ordered %s %d %s %s' % (q, r, ';'.join(_pat_tok(x) for x in (pats or ['*'])), hw.tok(c[3][0]))
+                 for c, name, f, q, r, pats in oplan])
+    for (c, name, f, q, r, pats), a in zip(oplan, ans):
+        try:
+            refs = list(f(c[1], list(pats), recursive=bool(r))) if pats is not None else list(f(c[1], recursive=bool(r)))
+        except TypeError:
+            stats['rootshape:order-impl-raises-TypeError:model-%s' % ('raises' if a == 'RAISES' else 'answers')] += 1
+            continue
+        raw = [hw.tup(w, x) for x in refs]
+        mod = 'FUEL' if a in ('FUEL', 'RAISES') else [tuple(int(x) for x in h.split('.')) for h in a.split(' ') if h]
+        if raw != mod:
+            same_set = mod != 'FUEL' and sorted(raw) == sorted(mod)
+            P.add('corr', 'corr|C12|roots-order|%s|%s|%s' % (name, c[2], 'same-elements-other-order' if same_set else 'other-elements'),
+                  what='%s(%s, recursive=%d, patterns=%r): yield order' % (name, c[0], r, pats),
+                  impl=raw[:6], model=(mod[:6] if mod != 'FUEL' else a))
+        stats['roots:order/%s/%s' % (name, c[2])] += 1
+        if len(raw) > 1:
+            stats['rootshape:order-nontrivial(>1 element)'] += 1
+        if len(set(raw)) > 2 and raw != sorted(raw) and raw != sorted(raw, reverse=True):
+            stats['rootshape:order-differs-from-sorted'] += 1
 
 
 def net_shape(E, c):
@@ -877,7 +912,7 @@ def run(prop, tier, seed, replay):
     wall = time.time() - t0
     theorems = proof['theorems']
     lists = {k: stats.pop(k, []) for k in ('paths', 'class-size', 'class-levels', 'answer-size')}
-    evaluations = sum(v for k, v in stats.items() if isinstance(v, int) and k.split(':')[0] in ('enum', 'occ', 'root', 'trace', 'flyweight-checked', 'unique', 'after-edit'))
+    evaluations = sum(v for k, v in stats.items() if isinstance(v, int) and k.split(':')[0] in ('enum', 'occ', 'root', 'roots', 'trace', 'flyweight-checked', 'unique', 'after-edit'))
     coverage = {
         'obligations': len(theorems), 'discharged': len(theorems) if (ok and proof['ok']) else 0,
         'checker_cmd': proof['cmd'] + '   (after building coq/theories/Hier/*.v, Proofs/Hier*.v in dependency order)',
